@@ -70,6 +70,7 @@ fn gen_amount(rng: &mut Rng) -> AmountSel {
     1 => AmountSel::Full,
     2 => AmountSel::FullPlus(1 + rng.below(5) as u32),
     3 => AmountSel::Exact("1".into()),
+    4..=5 => AmountSel::FirstHolder,
     _ => AmountSel::Permille(1 + rng.below(999) as u32),
   }
 }
@@ -172,7 +173,7 @@ pub fn gen_wallet(property: &str, seed: u64, thorough: bool) -> Scenario {
   ops.push(Op::Mine(vec![block(txs, script())]));
 
   // etchings with premine spread over several wallet outputs
-  let n_runes = 1 + wrng.usize(3);
+  let n_runes = if property == "C22" { 2 + wrng.usize(2) } else { 1 + wrng.usize(3) };
   let mut txs = Vec::new();
   for r in 0..n_runes {
     let n_out = 2 + wrng.usize(3);
@@ -244,6 +245,49 @@ pub fn gen_wallet(property: &str, seed: u64, thorough: bool) -> Scenario {
         },
         InSpec {
           sel: InputSel::Runic(1 + wrng.below(4) as u32),
+          witness: WitnessSpec::None,
+        },
+      ],
+      outputs: vec![wallet_out(script(), 10_000), change_out(script())],
+      fee_permille: 0,
+      fee_exact: Some(500),
+      runestone: None,
+      runestone_at: 0,
+      runestone_value: 0,
+    });
+  }
+  if wrng.chance(1, 2) {
+    // an inscription that is not on the first sat of its output: cardinal
+    // sats in front of it
+    txs.push(TxSpec {
+      inputs: vec![
+        InSpec {
+          sel: InputSel::Utxo(wrng.below(1 << 16) as u32),
+          witness: WitnessSpec::None,
+        },
+        InSpec {
+          sel: InputSel::Inscribed(wrng.below(8) as u32),
+          witness: WitnessSpec::None,
+        },
+      ],
+      outputs: vec![change_out(script())],
+      fee_permille: 0,
+      fee_exact: Some(0),
+      runestone: None,
+      runestone_at: 0,
+      runestone_value: 0,
+    });
+  }
+  if n_runes > 1 && property == "C22" && wrng.chance(2, 3) {
+    // a second output holding several runes
+    txs.push(TxSpec {
+      inputs: vec![
+        InSpec {
+          sel: InputSel::Runic(1),
+          witness: WitnessSpec::None,
+        },
+        InSpec {
+          sel: InputSel::Runic(2 + wrng.below(6) as u32),
           witness: WitnessSpec::None,
         },
       ],
@@ -399,6 +443,8 @@ fn recipient(to: u16, network: bitcoin::Network) -> (String, ScriptBuf) {
 struct WalletView {
   /// rune -> total on wallet-owned unspent outputs
   balances: BTreeMap<RuneId, u128>,
+  /// rune -> what the first uninscribed wallet output holding it holds
+  first_holder: BTreeMap<RuneId, u128>,
   owned: BTreeSet<ScriptBuf>,
 }
 
@@ -412,14 +458,23 @@ fn wallet_view(ex: &Exec, m: &Model) -> WalletView {
       .unwrap_or_default()
   });
   let mut balances: BTreeMap<RuneId, u128> = BTreeMap::new();
+  let mut first_holder: BTreeMap<RuneId, u128> = BTreeMap::new();
   for (o, b) in &m.runes.balances {
     if m.utxos.get(o).is_some_and(|u| owned.contains(&u.script)) {
+      let inscribed = !inscriptions_on(m, o).is_empty();
       for (id, a) in b {
         *balances.entry(*id).or_default() += a;
+        if !inscribed && *a > 0 {
+          first_holder.entry(*id).or_insert(*a);
+        }
       }
     }
   }
-  WalletView { balances, owned }
+  WalletView {
+    balances,
+    first_holder,
+    owned,
+  }
 }
 
 fn decimal(amount: u128, divisibility: u8) -> String {
@@ -436,8 +491,9 @@ fn decimal(amount: u128, divisibility: u8) -> String {
   }
 }
 
-fn resolve_amount(sel: &AmountSel, balance: u128) -> u128 {
+fn resolve_amount(sel: &AmountSel, balance: u128, first_holder: u128) -> u128 {
   match sel {
+    AmountSel::FirstHolder => first_holder.max(1),
     AmountSel::Exact(s) => s.parse().unwrap_or(1),
     AmountSel::Permille(p) => (balance / 1000 * u128::from(*p)).max(1).min(balance.max(1)),
     AmountSel::Zero => 0,
@@ -543,7 +599,7 @@ fn resolve(cmd: &WalletCmd, ex: &Exec, m: &Model, wv: &WalletView) -> Option<Res
     } => {
       let (id, spaced, div) = rune_of(*rune)?;
       let balance = wv.balances.get(&id).copied().unwrap_or(0);
-      let a = resolve_amount(amount, balance);
+      let a = resolve_amount(amount, balance, wv.first_holder.get(&id).copied().unwrap_or(1));
       let (address, script) = recipient(*to, network);
       let mut argv = vec!["send".to_string(), "--fee-rate".into(), fee_rate.to_string()];
       if let Some(p) = postage {
@@ -566,7 +622,7 @@ fn resolve(cmd: &WalletCmd, ex: &Exec, m: &Model, wv: &WalletView) -> Option<Res
     WalletCmd::BurnRune { rune, amount, fee_rate } => {
       let (id, spaced, div) = rune_of(*rune)?;
       let balance = wv.balances.get(&id).copied().unwrap_or(0);
-      let a = resolve_amount(amount, balance);
+      let a = resolve_amount(amount, balance, wv.first_holder.get(&id).copied().unwrap_or(1));
       Some(Resolved {
         argv: vec![
           "burn".into(),
@@ -913,7 +969,7 @@ fn resolve(cmd: &WalletCmd, ex: &Exec, m: &Model, wv: &WalletView) -> Option<Res
           let (id, spaced, div) = rune_of(*k)?;
           let balance = wv.balances.get(&id).copied().unwrap_or(0);
           // keep the total request within the balance most of the time
-          let a = resolve_amount(sel, balance / 4);
+          let a = resolve_amount(sel, balance / 4, wv.first_holder.get(&id).copied().unwrap_or(1));
           runes.insert(id, (spaced, div, a));
         }
         if !runes.is_empty() {
